@@ -74,19 +74,33 @@ pub fn partition(p: &Program, k: usize, rng: &mut Rng, closed: bool) -> Partitio
     let mut files = Vec::new();
     for m in 0..k {
         let mut src = String::new();
+        // The import lines stand after the first `ipos` own declarations: the documentation does not say where
+        // imports have to stand (Modules.tla: ipos).  Derived from the partition, not drawn, so that the programs of a
+        // seed stay what they were.
+        let own = (1..=n).filter(|a| module_of[a - 1] == m).count();
+        let ipos = if (m + n + k + imports[m].len()) % 2 == 0 { 0 } else { (m * 7 + n + 3 * imports[m].len()) % (own + 1) };
+        let mut import_text = String::new();
         for j in &imports[m] {
-            src.push_str(&format!("import \"p{}.pn\";\n", j + 1));
+            import_text.push_str(&format!("import \"p{}.pn\";\n", j + 1));
         }
-        src.push('\n');
+        import_text.push('\n');
+        let mut written = 0;
         for a in 1..=n {
             if module_of[a - 1] != m {
                 continue;
             }
+            if written == ipos {
+                src.push_str(&import_text);
+            }
+            written += 1;
             if public[a - 1] {
                 src.push_str("pub ");
             }
             src.push_str(&p.decl_text(a));
             src.push('\n');
+        }
+        if ipos >= own {
+            src.push_str(&import_text);
         }
         files.push((format!("p{}.pn", m + 1), src));
     }
